@@ -40,7 +40,7 @@ func snapJudge(c *fw.Ctx, sc *SnapCase, needInside bool, mon func(c *fw.Ctx, o *
 	}
 	c.Rec.Eval()
 	c.Rec.Count("gen:" + sc.Kind)
-	c.Rec.Count("set:" + sc.TMS.String())
+	countSet(c.Rec, sc)
 	if !o.Valid {
 		c.Rec.Count("invalid_input")
 	}
@@ -82,7 +82,7 @@ func report(c *fw.Ctx, o *Obs, cj []byte, fs []finding) {
 
 func init() {
 	// ---------------- C01 ----------------
-	prValid := &Profile{Sets: defaultSets, Kinds: validKinds, ValidOnly: true, Huge: true}
+	prValid := &Profile{Sets: defaultSets, Kinds: validKinds, ValidOnly: true, Huge: true, Zoo: true}
 	monC01f := func(c *fw.Ctx, o *Obs, cj []byte) bool {
 		if !o.Valid {
 			c.Rec.Count("skipped:invalid-after-placement")
@@ -173,7 +173,7 @@ func init() {
 	})
 
 	// ---------------- C18 ----------------
-	prC18 := &Profile{Sets: defaultSets, Kinds: []string{"comb", "comb", "sliver", "sliver", "spiky", "rectholes", "grow", "grow", "star", "angle", "border", "moat"}, ValidOnly: true}
+	prC18 := &Profile{Sets: defaultSets, Kinds: []string{"comb", "comb", "sliver", "sliver", "spiky", "rectholes", "grow", "grow", "star", "angle", "border", "moat"}, ValidOnly: true, Zoo: true}
 	monC18f := func(c *fw.Ctx, o *Obs, cj []byte) bool {
 		if !o.Valid {
 			c.Rec.Count("skipped:invalid-after-placement")
